@@ -175,7 +175,7 @@ func creatorExclusive(c *core.Ctx, r *core.Report, rule string, l *lifecycleRole
 
 func c01(c *core.Ctx, r *core.Report) {
 	ro := c.Roles()
-	r.Explanation = "C01 one shared instance: identity can only be lost if an injected value does not come from the singleton cache, the cache hands out two things for one name, creation runs twice, or injection copies. Each is decided: (R1) every element passed to Property.Inject originates from a result of the cache accessor, whose results originate only from the registry; (R2) the accessor consults the cache (early references allowed) before creating and returns hits unchanged; (R3) the creator chain is callable only through the factory literal handed to the registry; (R4) Inject writes exactly Meta.Value of the resolved candidates (decision table by abstract interpretation on all candidate lists up to the bound); (R5) Base.Value/Type/originAddress and Meta.Base/Raw are stored only into freshly allocated objects, UseProxy has no caller; (R6) registry typestate A1/A3 (C04 exploration re-run); (R7) early reuse row of the creator table; (R8) the lookup API returns .Raw of an accessor result; (R9) NewMeta is called only from the store-if-absent closure and CreateProxy. Decides the protocol that makes aliasing inevitable; pointer identity of a concrete run follows by a paper argument, it is not computed."
+	r.Explanation = "C01 one shared instance: identity can only be lost if an injected value does not come from the singleton cache, the cache hands out two things for one name, creation runs twice, or injection copies. Each is decided: (R1) every element passed to Property.Inject originates from a result of the cache accessor, whose results originate only from the registry; (R2) the accessor, interpreted against a registry answering miss / hit / error and created / error (accessor table), consults the cache first with early references allowed, returns hits unchanged, enters creation once for the same name with a factory that creates that name, and hands the result on unchanged; (R3) the creator chain is callable only through the factory literal handed to the registry; (R4) Inject writes exactly Meta.Value of the resolved candidates (decision table by abstract interpretation on all candidate lists up to the bound); (R5) Base.Value/Type/originAddress and Meta.Base/Raw are stored only into freshly allocated objects, UseProxy has no caller; (R6) registry typestate A1/A3 (C04 exploration re-run); (R7) early-reuse, stale-detected, in-creation-holders-ok and wrapped-never-raw rows of the creator table; (R8) the lookup API returns .Raw of an accessor result; (R9) NewMeta is called only from the store-if-absent closure and CreateProxy. Decides the protocol that makes aliasing inevitable; pointer identity of a concrete run follows by a paper argument, it is not computed."
 	r.Assumptions = []string{"reflect.Value.Set of a pointer/interface aliases the object", "custom registries/factories are out of scope"}
 	l := findLifecycle(c, r, "C01.R0")
 	if l == nil {
